@@ -20,7 +20,7 @@ pub struct Spec {
     pub width: Option<usize>,
     pub prec: Option<usize>,
 }
-pub const NCOMBO: usize = 72;
+pub const NCOMBO: usize = fmt_table::COMBOS.len();
 
 impl Spec {
     pub fn pack(&self) -> u128 {
